@@ -104,6 +104,19 @@ func (i *Interp) registerVX() {
 	V("Implies", func(fr *frame, a []Value) Value {
 		return i.notVal(i.andVals(a[0], i.notVal(a[1])))
 	})
+	V("B2I", func(fr *frame, a []Value) Value {
+		switch c := a[0].(type) {
+		case bool:
+			if c {
+				return int64(1)
+			}
+			return int64(0)
+		case *Term:
+			tt := i.tt()
+			return tt.Ite(c, tt.Const(64, 1), tt.Const(64, 0))
+		}
+		panic(enginePanic{v: "vx.B2I: unexpected operand"})
+	})
 	V("EqBytes", func(fr *frame, a []Value) Value {
 		return i.strEq(mkStr(bytesOf(a[0])), mkStr(bytesOf(a[1])))
 	})
